@@ -74,7 +74,7 @@ def xf_names(m, n, hermitian=False):
     names += ["equalmod", "constant", "rowgraded", "colgraded", "circulant_q", "toeplitz_q", "checker", "lay:F", "lay:T", "lay:view", "lay:ro",
               "negzero_col", "negated_checker", "nearcol", "depcol1",
               "allneg", "nonpos", "nearreal", "twodeps", "halfdep_top", "halfdep_bot"]
-    names += ["blockdiag1", "blockdiag2", "arrow", "zero_row1"]
+    names += ["blockdiag1", "blockdiag2", "arrow", "zero_row1", "zerosum:low2", "zerosum:low1", "zerosum:up1", "zerosum:all", "zerosum:imag"]
     # nearly structured inputs at several magnitudes: structured part O(1), everything else scaled by 2^-e
     names += [f"near:{st}:{e}" for st in ("diag", "tridiag", "hess", "triu") for e in (20, 30, 40, 48)]
     if m == n:
@@ -187,6 +187,21 @@ def xf_build(name, m, n, fill, hermitian=False):
             h = m // 2
             rows = slice(0, h) if name == "halfdep_top" else slice(m - h, m)
             A[rows, 1] = O.qmul(A[rows, 0], np.broadcast_to(np.array([0.5, -1.0, 0.0, 2.0]), (A[rows, 0].shape[0], 4)))
+    elif name.startswith("zerosum:"):
+        # non-zero entries that cancel exactly in the SUM over a region (a structure test written as `region.sum() == 0` sees "empty")
+        reg = name.split(":")[1]
+        A = base.copy()
+        if reg == "imag":  # in every entry the three imaginary components add up to exactly zero
+            A[..., 3] = -(A[..., 1] + A[..., 2])
+        else:
+            sel = {"low2": lambda i, j: i >= j + 2, "low1": lambda i, j: i >= j + 1, "up1": lambda i, j: j >= i + 1, "all": lambda i, j: True}[reg]
+            pos = [(i, j) for i in range(m) for j in range(n) if sel(i, j)]
+            for t in range(0, len(pos) - 1, 2):
+                A[pos[t + 1]] = -A[pos[t]]
+            if len(pos) % 2:
+                A[pos[-1]] = 0.0
+        if hermitian:
+            A = _hermitize(A)
     elif name in ("blockdiag1", "blockdiag2"):  # exactly decoupled leading block of size 1 / 2 (reducible input), dense trailing block
         k_ = 1 if name == "blockdiag1" else 2
         A = base.copy()
